@@ -245,9 +245,9 @@ pub fn run(rep: &mut Report) {
         per-thread order, real-time order; non-trivial = at least one non-empty record; distinct = distinct history / run".to_owned();
     rep.assume("the file is judged only after an append returned (single-threaded) or for the caller's own record (concurrent); a record larger than the 1 KiB buffer is legitimately written in several write(2) calls");
     let thorough = rep.tier == "thorough";
-    run_cases(rep, "single", if thorough { 4000 } else { 300 }, single_history);
+    run_cases(rep, "single", if thorough { 6000 } else { 1500 }, single_history);
     // concurrent runs use many threads themselves: run them a few at a time
-    let n = if thorough { 300 } else { 24 };
+    let n = if thorough { 300 } else { 60 };
     let saved = std::env::var("L4V_JOBS").ok();
     std::env::set_var("L4V_JOBS", "3");
     run_cases(rep, "concurrent", n, |rep, rng, idx| concurrent_run(rep, rng, idx, thorough && idx % 4 == 0));
